@@ -169,7 +169,8 @@ def run(ctx, replay=None):
         ctx.count('aconf-generated:' + wf)
         if wf == 'nwf':           # outside the hypotheses of C20_aconf_accepts_iff: a generator slip, not evidence of anything
             continue
-        ops.append('ac %d %d %s %s' % (c[0], c[1], enc_table(c[2]), text)); exp.append((i, e))
+        # one case in five: the same parser object parses the same file twice and the second run is the one compared
+        ops.append('%s %d %d %s %s' % ('acr' if i % 5 == 3 else 'ac', c[0], c[1], enc_table(c[2]), text)); exp.append((i, e))
     if example:
         ops.append('ac 1 0 %s %s' % (enc_table(t0), hx(example))); exp.append((None, None))
     il, ml, err = both_conf(ctx, exe, ops)
